@@ -386,7 +386,12 @@ SCRIPT_POOLS = {
     "devanagari": _r(0x915, 0x939),
     "latin1": _r(0xe0, 0xff, (0xf7,)),
 }
+SCRIPT_POOLS["han-ext-b"] = _r(0x20000, 0x2003f)        # 4-byte UTF-8, PVALID
+SCRIPT_POOLS["deseret"] = _r(0x10428, 0x1044f)          # 4-byte UTF-8 lower-case letters
 RTL = {"arabic", "hebrew"}
+# labels with ZWNJ / ZWJ in a context IDNA2008 allows (RFC 5892 A.1/A.2): after a virama, or between joining letters
+CONTEXTJ_LABELS = ["\u0646\u0627\u0645\u0647\u200c\u0627\u06cc", "\u0915\u094d\u200d\u0937", "\u0915\u094d\u200c\u0937",
+                   "\u0645\u06cc\u200c\u062e\u0648\u0627\u0647\u0645", "\u0dc1\u0dca\u200d\u0dbb\u0dd3", "\u0d28\u0d4d\u200d"]
 
 
 def idn_label(rng, script, mix_ascii):
@@ -433,6 +438,12 @@ def idn_domains(tier, rng, mdl):
             U = ".".join(labs).encode("utf-8")
             A = b".".join(to_alabel(l) for l in labs)
         out.append((U, A))
+    for lab in CONTEXTJ_LABELS:
+        for t in ("com", "ir", "in"):
+            try:
+                out.append((lab.encode("utf-8") + b"." + t.encode(), to_alabel(lab) + b"." + t.encode()))
+            except Exception:
+                pass
     # UTS#46-mapped spellings (fullwidth, IDNA full stops, ignorable code points, upper case) of plain ASCII domains
     plain = [b"example.com", b"foo.test", b"localhost", b"a.invalid", b"x.onion", b"example.org", b"mail.ru", b"iana.org", b"a-b.museum",
              b"nic.aaa", b"a1.b2.c3.info", b"pppppp", b"a.zzzz"]
